@@ -106,6 +106,31 @@ CLAIMED = {
         note=STATIC_NOTE + 'Positivity of A follows from the product shape only for positive inputs and is not '
              'decided numerically; which user phases count as surface phases is data dependent.',
         ref='DESIGN.md section 4 C09'),
+    'C10': dict(
+        technique='abstract interpretation of References (application and the real fitting code) with '
+                  'np.linalg.lstsq as an uninterpreted solver; normal-form identities',
+        text='Decides that the reference adjustment contributes 0 to Cv, Cp, U, S, that H (and G) receive '
+             '-(sum offset*n)*T_ref/T: linear in the composition, temperature independent in energy units, descriptors '
+             'absent from the references only warn; and, through the real fit_HoRT_offset code, that for every '
+             'reference species adjusted minus experimental enthalpy at T_ref is identically the least-squares residual '
+             'of its row (matrix rows, right-hand side dft-exp, offset keyed per descriptor, sign pairing of fit and '
+             'application), so a uniquely determined fit reproduces the experiment; refitting after append rebuilds '
+             'the system. Disappearance when references are switched off is decided in C01\'s aggregation rule.',
+        note=STATIC_NOTE + 'np.linalg.lstsq is trusted (orthogonality of the residual for rank-deficient sets is its '
+             'contract); averaging of unequal reference temperatures is not decided.',
+        ref='DESIGN.md section 4 C10'),
+    'C17': dict(
+        technique='abstract interpretation of the real constructor/insert/pop/_set_intercepts/get_UoRT under an '
+                  'ordering oracle, exhaustive enumeration of operation sequences up to a bound, comparison with a '
+                  'reference sorted pair list',
+        text='For 1-3 initial breakpoints and every sequence of up to 2 (quick) / 3 (thorough) inserts (below, between, '
+             'equal to, above the existing breakpoints) and pops, decides symbolically (all slopes, all breakpoint '
+             'values consistent with the ordering) that breakpoints stay ascending, slopes stay paired, intercepts '
+             'satisfy the continuity recurrence starting at 0, and get_UoRT on, between and beyond breakpoints is '
+             'slope*x+intercept of the containing piece over RT, independent of T; S=Cv=Cp=0; to_dict/from_dict '
+             'rebuilds the same lists.',
+        note=STATIC_NOTE + 'Bounded in the number of operations (stated); np.argmax modelled as first-True-or-0.',
+        ref='DESIGN.md section 4 C17'),
     'C12': dict(
         technique='table analysis: constant folding of literal tables + abstract interpretation of the '
                   'lookup functions (ast, exact Fractions)',
